@@ -273,6 +273,8 @@ mod wrapping;
 pub mod verif_hooks;
 #[cfg(substrate_fixed_verif)]
 pub use crate::from_str::verif_kernels;
+#[cfg(substrate_fixed_verif)]
+pub use crate::display::verif_display_kernels;
 
 use crate::{
     arith::MulDivOverflow,
